@@ -13,8 +13,8 @@ Next == UNCHANGED i
 Spec == Init /\ [][Next]_i
 
 AllKeys == (0..63) \X (0..31)
-ConstMaps == [t \in 0..31 |-> [k \in AllKeys |-> t]]
-MapOf(id) == IF id <= 0 THEN <<>> ELSE ConstMaps[id - 1]
+\* map id t + 1: every key resolves to instance type t (what a unit answers to QUERY INSTANCE TYPE is a byte: also 32..255)
+MapOf(id) == IF id <= 0 THEN <<>> ELSE [k \in AllKeys |-> id - 1]
 
 Hdr(x, d) == (x \div 64) * 131072 + (x % 64) * 1024 + d
 
